@@ -20,6 +20,11 @@ type Shape struct {
 	Edges []string `json:"edges,omitempty"` // "call" | "call_indirect" | "return_call" | "return_call_indirect"
 	Inner int      `json:"inner,omitempty"` // iterations of a bounded loop executed by every level (0 = none)
 
+	// cost of one round of the cycle: when SleepMs > 0 every round calls a host function that
+	// sleeps that long, from the cycle itself ("body") or from a function it calls ("callee")
+	SleepMs  int    `json:"sleep_ms,omitempty"`
+	SleepVia string `json:"sleep_via,omitempty"`
+
 	// how the cycle is entered
 	Entry string `json:"entry"` // "export" | "callback" | "import" | "import2" | "start" | "_start"
 	// 0 = never terminates; otherwise the cycle stops after Limit rounds (control group)
@@ -53,9 +58,15 @@ func (s *Shape) class() string {
 	return "exit-or-overflow"
 }
 
+// hasCheckPoint: every round of the cycle passes a point at which the engines look at the closed
+// state (a loop header or a tail call), so a slow round does not make the guest unstoppable.
+func (s *Shape) hasCheckPoint() bool {
+	return s.Kind == "loop" || s.Inner > 0 || s.tailOnly()
+}
+
 // plain is the shape of the upstream example: a bare `loop ... br 0`.
 func (s *Shape) plain() bool {
-	return s.Kind == "loop" && s.Back == "br" && s.Depth == 0 && s.BT == 0 && s.Nest == "" && s.Body == "" && s.Entry == "export"
+	return s.Kind == "loop" && s.Back == "br" && s.Depth == 0 && s.BT == 0 && s.Nest == "" && s.Body == "" && s.SleepMs == 0 && s.Entry == "export"
 }
 
 const nopResult = 7
@@ -67,8 +78,9 @@ func buildCycle(s *Shape) []byte {
 	hb := m.ImportFunc("env", "hb", nil, nil)
 	hnop := m.ImportFunc("env", "nop", nil, nil)
 	reenter := m.ImportFunc("env", "reenter", nil, []byte{e.I32})
+	nap := m.ImportFunc("env", "nap", nil, nil)
 	base := m.NumImportedFuncs()
-	fLeaf, fBounded, fF0, fCycle, fSpin, fGo, fNop, fStart := base, base+1, base+2, base+5, base+6, base+7, base+8, base+9
+	fLeaf, fBounded, fF0, fCycle, fSpin, fGo, fNop, fStart, fNapper := base, base+1, base+2, base+5, base+6, base+7, base+8, base+9, base+10
 	tVoid := m.AddType(nil, nil)
 	tP1 := m.AddType([]byte{e.I32}, nil)
 	tP2 := m.AddType([]byte{e.I32, e.I64}, []byte{e.I32, e.I64})
@@ -79,6 +91,16 @@ func buildCycle(s *Shape) []byte {
 	slotOf := func(i int) int32 { return int32(1 + i) }
 
 	incG := func(b *e.B) { b.GlobalGet(gG).I32Const(1).Raw(e.OpI32Add).GlobalSet(gG) }
+	// the slow part of a round
+	slow := func(b *e.B) {
+		if s.SleepMs > 0 {
+			if s.SleepVia == "callee" {
+				b.Call(fNapper)
+			} else {
+				b.Call(nap)
+			}
+		}
+	}
 	// a loop of n iterations using local `l`
 	bounded := func(b *e.B, l uint32, n int) {
 		b.I32Const(0).LocalSet(l)
@@ -105,6 +127,7 @@ func buildCycle(s *Shape) []byte {
 			if s.Inner > 0 {
 				bounded(b, 0, s.Inner)
 			}
+			slow(b)
 			next := (i + 1) % n
 			switch s.Edges[i] {
 			case "call":
@@ -158,6 +181,7 @@ func buildCycle(s *Shape) []byte {
 			if s.Limit > 0 {
 				b.GlobalGet(gG).I32Const(int32(s.Limit)).Raw(e.OpI32GeU).BrIf(out)
 			}
+			slow(b)
 			if s.Nest == "outer" {
 				bounded(b, lI, 3)
 			}
@@ -213,6 +237,9 @@ func buildCycle(s *Shape) []byte {
 	}
 	m.AddFunc(nil, []byte{e.I32}, nil, e.NewB().I32Const(nopResult).Bytes()) // nop
 	m.AddFunc(nil, nil, nil, e.NewB().Call(fSpin).Drop().Bytes())            // start
+	if idx := m.AddFunc(nil, nil, nil, e.NewB().Call(nap).Bytes()); idx != fNapper {
+		panic("index plan")
+	}
 	m.ExportFunc("go", fGo)
 	m.ExportFunc("spin", fSpin)
 	m.ExportFunc("cycle", fCycle)
